@@ -60,5 +60,4 @@ br_i32_decode(uint32_t *x, const void *src, size_t len)
 		}
 	}
 	x[0] = br_i32_bit_length(x + 1, v - 1);
-	BR_VERIF_PUBLIC_MEM(x, sizeof *x);
 }
